@@ -21,6 +21,9 @@
 //	g := pq.Strict(U, depth)       the C12 fragment (no absent, no constants, no label rewriting, no offsets/subqueries,
 //	                               `or` only at top level)
 //	g.<Switch> = false             every production has a boolean switch in Grammar; see the struct
+//	g.Exclude... = true            leave a structural class out by construction (known findings): ExcludeOnBothLack,
+//	                               ExcludeIgnoringGuaranteed, ExcludeFnOverRemoved, ExcludeCountValuesWithout;
+//	                               g.Excluded / g.ExcludedBy count what was dropped
 //	g.Vector(t)  string            an instant-vector expression
 //	g.Scalar(t)  string            a scalar expression
 //	g.Join(t)    string            a vector-to-vector binary operation whose two sides are biased to carry
@@ -39,18 +42,21 @@
 //	pq.LCA(root, a, b)             lowest common ancestor of two nodes (by pointer identity)
 //	pq.WithDeadMatcher(expr, sel)  expr with an unsatisfiable matcher added to one selector
 //	pq.MayCarry(node, label)       conservative structural "can a result of node carry this label" (independent of pint)
+//	pq.PositivelyNamed(node)       labels named in = / =~ matchers, label_replace/label_join destinations, count_values labels
 //
 // Database (db.go)
 //
-//	db := pq.GenDB(t, pq.DBOpts{U: U, Shape: "", FullLabels: false})
+//	db := pq.GenDB(t, "db0", pq.DBOpts{U: U, Shape: "", FullLabels: false, Gaps: true})   ("db0" prefixes the rapid draw labels)
 //	                               series = metric + label subset, sample values from {0,1,2,3} on a 1-minute grid
 //	                               from T-12m to T+3m (T = pq.T0); shapes: dense / sparse / single / shared / one
+//	                               (drawn when Shape is "") and "all" (full cross product of label values, never drawn)
 //	db.Queryable()                 storage.Queryable over it (Select filters by matchers, storage.NewListSeries)
 //	DB is plain data and JSON-serialisable, so a failing case = expression text + DB.
 //
 // Engine (engine.go)
 //
 //	r, err := pq.Eval(db, expr, pq.T0)          instant query with the real engine (lookback 5m, @ and negative offsets on)
+//	r, err := pq.EvalQ(db.Queryable(), expr, at) the same over a Queryable built once (several expressions on one DB)
 //	r, err := pq.EvalRange(db, expr, from, to, step)
 //	r.Kind  "vector" | "scalar" | "string" | "matrix";  r.Series []RSeries{Labels map, Points}
 //	r.Empty(), r.Equal(other), r.String()
